@@ -253,5 +253,66 @@ pub proof fn lemma_parts_flag(a: S, b: S, l: Seq<GcPtr>, cur: int)
     }
 }
 
+// ---- C11: a `Collect::trace` that panics part-way (rule X-unwind) leaves the arena consistent
+/// re-queueing the object whose trace was interrupted re-establishes the full tri-colour invariant
+pub proof fn lemma_requeue_parts(pre: S, post: S, p: GcPtr, l: Seq<GcPtr>, cur: int)
+    requires inv_parts(pre, l, cur), tri_except(pre, Some(p), false), pre.phase == Phase::Mark, isobj(pre, p), pre.objs[p].color == GcColor::Black,
+        pre.m.traced >= 1, make_gray_again_rel(pre, post, p),
+    ensures inv_w(post, l, cur),
+{
+    lemma_prot_outside_sweep(pre, l, cur);
+    assert(post.objs.dom() =~= pre.objs.dom());
+    assert forall|q: GcPtr| qcount(post, q) == qcount(pre, q) + (if q == p { 1nat } else { 0nat }) by { lemma_qpush_count(pre, post, p, q); }
+    assert(i_list(post, l, cur)) by {
+        assert forall|i: int| 0 <= i < l.len() implies (#[trigger] post.objs[l[i]]).next == at(l, i + 1) by { lemma_index_of(l, i); }
+    }
+    lemma_prot_outside_sweep(post, l, cur);
+    assert(i_colour(post, l, cur));
+    assert(i_live(post));
+    assert forall|q: GcPtr| prot(post, l, cur, q) <==> prot(pre, l, cur, q) by {}
+    assert forall|e: Edge| edge_safe(pre, l, cur, e) implies edge_safe(post, l, cur, e) by {}
+    assert(i_safe(post, l, cur)) by {
+        assert forall|q: GcPtr| #[trigger] prot(post, l, cur, q) implies edges_safe(post, l, cur, post.edges[q]) by {
+            assert(prot(pre, l, cur, q)); assert(edges_safe(pre, l, cur, pre.edges[q]));
+        }
+        assert(edges_safe(pre, l, cur, pre.root_edges));
+        assert forall|q: GcPtr| #[trigger] post.pending.dom().contains(q) implies edges_safe(post, l, cur, post.pending[q].edges) by {
+            assert(edges_safe(pre, l, cur, pre.pending[q].edges));
+        }
+    }
+    assert(i_tri(post)) by {
+        assert forall|q: GcPtr, k: int| #![trigger post.edges[q][k]] isobj(post, q) && post.objs[q].color == GcColor::Black && 0 <= k < post.edges[q].len()
+                implies edge_done(post, post.edges[q][k]) by {
+            assert(q != p); assert(edge_done(pre, pre.edges[q][k]));
+        }
+        if !post.root_needs_trace {
+            assert forall|k: int| 0 <= k < post.root_edges.len() implies edge_done(post, #[trigger] post.root_edges[k]) by { assert(edge_done(pre, pre.root_edges[k])); }
+        }
+    }
+    assert(i_count(post, l));
+}
+
+/// T-inv for the unwind relation of mark_one (both variants): the arena satisfies Inv after the caught panic, so C01-C05 continue to hold
+pub proof fn theorem_c11_trace_panic_preserves_inv(pre: S, post: S, l: Seq<GcPtr>, cur: int)
+    requires inv_w(pre, l, cur), pre.phase == Phase::Mark, mark_one_unwind_rel(pre, post),
+    ensures inv_w(post, l, cur),
+{
+    if pre.gray.len() > 0 || pre.gray_again.len() > 0 {
+        let fg = unwind_obj_rel(pre, post, true);
+        let p = taken(pre, fg);
+        let mid = black_state(pre, fg);
+        let mid2 = choose|mid2: S| #[trigger] make_gray_again_rel(mid2, post, p) && marks_rel(mid, mid2, pre.edges[p]) && mid2.objs[p].color == GcColor::Black;
+        lemma_black_state(pre, fg, l, cur);
+        lemma_marks_inv(mid, mid2, pre.edges[p], l, cur, Some(p), false);
+        assert(mid2.m.traced >= 1);
+        lemma_requeue_parts(mid2, post, p, l, cur);
+    } else {
+        lemma_safe_edges_pre(pre, l, cur, pre.root_edges);
+        lemma_tri_full(pre);
+        lemma_marks_inv(pre, post, pre.root_edges, l, cur, None, false);
+        lemma_tri_full(post);
+    }
+}
+
 } // mod lem_mark
 } // verus!
